@@ -78,6 +78,12 @@ func (s *source) rec(pid peer.ID, v int) *model.ProviderInfo {
 }
 
 func (s *source) gate(what string) {
+	// a read of a cached provider has no business with the sources: a source
+	// call made on a reader's own goroutine means the read does a writer's
+	// work itself (and waits for the source, and for the write lock)
+	if n := vsched.CurrentName(); strings.HasPrefix(n, "R") {
+		s.e.Log("source %s called-by-reader %s", what, n)
+	}
 	if s.gated {
 		s.e.Log("source %s begin", what)
 		vsched.Point("source-call") // the writer is parked here, holding the write lock
@@ -185,6 +191,9 @@ func checkReaders(e *sched.Exec, name string, threads []string, versions map[int
 	}
 	last := map[string]int{}
 	for _, l := range e.Obs() {
+		if strings.Contains(l, " called-by-reader ") {
+			out = append(out, sched.Finding{Sig: name + ":read-of-cached-provider-calls-the-source-itself", Msg: l})
+		}
 		f := strings.Fields(l)
 		if len(f) < 3 || !strings.HasPrefix(f[0], "R") || !strings.HasPrefix(f[2], "P=") {
 			if len(f) >= 3 && strings.HasPrefix(f[0], "R") && f[1] == "GetResults" && f[2] == "n=0" {
@@ -372,9 +381,56 @@ func autoRefreshOnce() *sched.Scenario {
 	}
 }
 
+// Q5: the refresh interval has elapsed and the source is slow (gated): two
+// readers whose first operations differ (a listing, a result expansion, a
+// lookup). Whichever read comes first after the interval, none of them waits
+// for the automatic refresh it may trigger.
+func autoRefreshDueReaders() *sched.Scenario {
+	name := "Q5-auto-refresh-due-list-and-results-first"
+	readers := map[string]bool{"R1": true, "R2": true}
+	return &sched.Scenario{Name: name, AfterStep: afterStep(readers),
+		Setup: func(e *sched.Exec) ([]sched.Thread, func()) {
+			src := &source{e: e, recs: map[peer.ID]int{pP: 1}}
+			pc, err := pcache.New(pcache.WithSource(src), pcache.WithRefreshInterval(time.Minute), pcache.WithTTL(time.Hour))
+			if err != nil {
+				panic(err)
+			}
+			time.Sleep(time.Minute + time.Second) // virtual: the interval elapses
+			src.mu.Lock()
+			src.recs[pP] = 2
+			src.gated = true
+			src.mu.Unlock()
+			list := func(n string) {
+				lv := 0
+				for _, x := range pc.List() {
+					if x != nil && x.AddrInfo.ID == pP {
+						lv = verOf(x)
+					}
+				}
+				e.Log("%s List P=%d", n, lv)
+			}
+			results := func(n string) {
+				res, err := pc.GetResults(context.Background(), pP, []byte("ctx"), []byte("md"))
+				e.Log("%s GetResults n=%d err=%v", n, len(res), err)
+			}
+			get := func(n string) {
+				pi, err := pc.Get(context.Background(), pP)
+				e.Log("%s Get P=%d err=%v", n, verOf(pi), err)
+			}
+			return []sched.Thread{
+				{Name: "R1", Fn: func() { list("R1"); get("R1"); list("R1") }},
+				{Name: "R2", Fn: func() { results("R2"); list("R2"); get("R2") }},
+			}, func() {}
+		},
+		Check: func(e *sched.Exec) []sched.Finding {
+			return checkReaders(e, name, []string{"R1", "R2"}, map[int]bool{1: true, 2: true})
+		},
+	}
+}
+
 func TestCheck(t *testing.T) {
 	r := vp.New("C07", "model_checking",
-		"scenarios on the real ProviderCache built with the instrumentation overlay, with a fake source whose Fetch/FetchAll are scheduling points (a writer can be parked inside a source call while it holds the write lock): Q1 one and two readers (Get, List, GetResults, Get of a provider cached by preload) vs a Refresh that moves that provider from version 1 to 2 and adds another, without and with filler providers so that the refresh rebuilds the main map; Q2 a reader vs a lookup of an uncached provider (miss-fetch); Q4 a refresh, a miss-fetch and a reader together (two writers publishing one after the other), with a final read once everything is at rest; Q3 two lookups after the refresh interval elapsed (virtual time). All interleavings at the scheduling points (atomic load/store/CAS of the snapshot pointer and refresh flag, write-lock channel operations, spawns, source calls, observations) up to the preemption bound. At every quiescence a reader released last must be parked at its next point or finished (otherwise it waits for a writer). states = distinct decision states; transitions = scheduling steps; traces = executions of the real cache.",
+		"scenarios on the real ProviderCache built with the instrumentation overlay, with a fake source whose Fetch/FetchAll are scheduling points (a writer can be parked inside a source call while it holds the write lock): Q1 one and two readers (Get, List, GetResults, Get of a provider cached by preload) vs a Refresh that moves that provider from version 1 to 2 and adds another, without and with filler providers so that the refresh rebuilds the main map; Q2 a reader vs a lookup of an uncached provider (miss-fetch); Q4 a refresh, a miss-fetch and a reader together (two writers publishing one after the other), with a final read once everything is at rest; Q3 two lookups after the refresh interval elapsed (virtual time); Q5 the same moment with a slow source and two readers whose first operation is a listing / a result expansion. In every scenario a source call made on a reader's own goroutine is a violation (a read of a cached provider never does a writer's work). All interleavings at the scheduling points (atomic load/store/CAS of the snapshot pointer and refresh flag, write-lock channel operations, spawns, source calls, observations) up to the preemption bound. At every quiescence a reader released last must be parked at its next point or finished (otherwise it waits for a writer). states = distinct decision states; transitions = scheduling steps; traces = executions of the real cache.",
 		"data races are NOT decided here: a cooperative scheduler's hand-offs are happens-before edges; they are the business of the separate free-running -race pass of the same operations (package c07race, run by the driver, sampled and declared non-exhaustive)",
 		"at most 2 readers; sequential consistency of the atomics is assumed",
 	)
@@ -387,7 +443,7 @@ func TestCheck(t *testing.T) {
 	if vp.Thorough() {
 		bound = 3
 	}
-	scs := []*sched.Scenario{readersVsRefresh(1, 0), readersVsRefresh(1, 3), readerVsMissFetch(), autoRefreshOnce(), refreshAndMissFetch(), readersVsRefresh(2, 0)}
+	scs := []*sched.Scenario{readersVsRefresh(1, 0), readersVsRefresh(1, 3), readerVsMissFetch(), autoRefreshOnce(), autoRefreshDueReaders(), refreshAndMissFetch(), readersVsRefresh(2, 0)}
 	r.Bounds(map[string]any{"preemption_bound": bound, "scenarios": len(scs)})
 	budget := 0.0
 	if v := os.Getenv("VERIF_BUDGET_S"); v != "" {
